@@ -768,6 +768,18 @@ def ring_analyse(facts, rep):
                     check_rb6(ctx, add, label, rt, base)
                     fn = RING_OPS.get(base)
                     if fn is not None: fn(ctx, add, label, rt, site)
+                    if base not in _RING_TABLE and is_class and not (f.d.get('ctor') or f.d.get('dtor') or f.d.get('copyassign') or f.d.get('moveassign')):
+                        # a mutator outside the operation table (an erase, a truncate, a clear): whatever it does, an element that leaves the live
+                        # range [0, size) was destroyed or moved out on the way
+                        size1 = as_lin(ctx.final('m_size'))
+                        if size1 is not None:
+                            dS = size1 - Lin.sym('S')
+                            if dS.is_const() and dS.c < 0:
+                                gone = ctx.elems({'destroy', 'moveout'}) or [1 for n_, p_ in ctx.ev if p_[0] == 'range' and p_[1] == 'destroy']
+                                if not gone and (ctx.elems({'assign'}) or any(p_[0] == 'range' and p_[1] in ('assign', 'move') for n_, p_ in ctx.ev)): continue          # elements are shifted on this path: the one that leaves may have been moved from (judged on the path that shifts nothing)
+                                add('RB.7', bool(gone), f'{label} {rt}: the {-dS.c} element(s) that leave the live range are destroyed or moved out', site,
+                                    '' if gone else f'm_size goes down by {-dS.c} on this path and no element is destroyed or moved out: an element that still holds its value is left behind outside [0, size) — it is never destroyed, '
+                                    'and the next insertion constructs a new element over it', key=f'RB.7|{base}|leaves')
     res['_nfn'] = nfn; res['_nclasses'] = len(classes)
     return res
 
@@ -1199,6 +1211,7 @@ class _Special(dict):
         return _dispatch_special
 
 
+_RING_TABLE = set(RING_OPS)
 RING_OPS = _Special(RING_OPS)
 
 
